@@ -12,6 +12,9 @@
 #include "ops.h"
 #include "c11_common.h"
 
+#ifndef C11_PER
+#define C11_PER CASES_PER_QUERY   // dispatched cases per query (smaller for the two-cell bases)
+#endif
 enum { E_EDGE_NOBU = 1, E_EDGE_BU, E_FACE_SYM, E_FACE_BU, E_CELL, E_CELL_SYM };
 static unsigned g_entry;
 static bool g_done;   // the dispatched case ran to its end (single always-reachable witness site in do_case)
@@ -66,14 +69,16 @@ static void case_edge_nobu(unsigned i) {   // i = allowDuplicates, v_param(1) = 
   edge_check(m, s0, a, b, (i & 1) != 0, r);
 }
 static const unsigned char BASE_N[N_BASES][4] = {{0,0,0,0},{5,5,1,0},{4,6,4,1},{5,9,7,2},{6,11,8,2},{7,12,8,2},{5,9,9,3},{8,12,6,1},{12,20,11,2},{7,12,9,2},{4,5,2,0},{6,12,10,3}};
-static void case_edge_bu(unsigned i) {   // ordered pair index = chunk * 8 + i
-  unsigned base = v_param(0), cfg = v_param(1), idx = v_param(2) * CASES_PER_QUERY + i;
+static void case_edge_bu(unsigned i) {   // ordered pair index = chunk * C11_PER + i
+  if (i >= C11_PER) return;
+  unsigned base = v_param(0), cfg = v_param(1), idx = v_param(2) * C11_PER + i;
   unsigned nv = BASE_N[base][0];
-  if (idx >= nv * nv || idx / nv == idx % nv) return;
+  if (nv < 2 || idx >= nv * (nv - 1)) return;   // idx enumerates the ordered pairs a != b
   TopologyKernel m;
   edge_prepare(m, base, cfg);
   Snap s0; take_snapshot(m, s0);
-  int a = (int)(idx / nv), b = (int)(idx % nv);
+  int a = (int)(idx / (nv - 1)), b = (int)(idx % (nv - 1));
+  if (b >= a) ++b;
   if (s0.overflow || s0.vdel[a] || s0.vdel[b]) return;
   int r = m.add_edge(VH(a), VH(b), (cfg & 1) != 0).idx();
   edge_check(m, s0, a, b, (cfg & 1) != 0, r);
@@ -122,9 +127,10 @@ static void case_face_sym(unsigned i) {   // list length = v_param(1) (one case 
 //  family 0: idx = (f, variant): rotations of the list (n), rotations of the opposite orientation (n), one element dropped (n), first element doubled (1), single element (1)
 //  family 1: idx = (f, p, x): element p replaced by halfedge x (every position, every halfedge)
 static void case_face_bu(unsigned i) {
-  unsigned base = v_param(0), fam = v_param(1), idx = v_param(2) * CASES_PER_QUERY + i;
+  if (i >= C11_PER) return;
+  unsigned base = v_param(0), fam = v_param(1), idx = v_param(2) * C11_PER + i;
   const unsigned nf = BASE_N[base][2], nhe = 2u * BASE_N[base][1];
-  enum { MAXN = 4 };   // face valence in the base family
+  const unsigned MAXN = (base == B_HEX || base == B_HEX2) ? 4 : 3;   // face valence of the base (uniform-valence bases only)
   if (fam == 0 ? idx >= nf * (3 * MAXN + 2) : idx >= nf * MAXN * nhe) return;
   TopologyKernel m;
   build_base(m, base);
@@ -135,8 +141,8 @@ static void case_face_bu(unsigned i) {
     unsigned f = idx / (3 * MAXN + 2), var = idx % (3 * MAXN + 2);
     const int fv = s0.fval[f];
     if (var < MAXN) { if ((int)var >= fv) return; for (int k = 0; k < fv; ++k) h[n++] = snap_hf_he(s0, (int)(2 * f), (k + (int)var) % fv); }
-    else if (var < 2 * MAXN) { int ro = (int)var - MAXN; if (ro >= fv) return; for (int k = 0; k < fv; ++k) h[n++] = snap_hf_he(s0, (int)(2 * f + 1), (k + ro) % fv); }
-    else if (var < 3 * MAXN) { int dr = (int)var - 2 * MAXN; if (dr >= fv) return; for (int k = 0; k < fv; ++k) if (k != dr) h[n++] = s0.fhe[f][k]; }
+    else if (var < 2 * MAXN) { int ro = (int)(var - MAXN); if (ro >= fv) return; for (int k = 0; k < fv; ++k) h[n++] = snap_hf_he(s0, (int)(2 * f + 1), (k + ro) % fv); }
+    else if (var < 3 * MAXN) { int dr = (int)(var - 2 * MAXN); if (dr >= fv) return; for (int k = 0; k < fv; ++k) if (k != dr) h[n++] = s0.fhe[f][k]; }
     else if (var == 3 * MAXN) { for (int k = 0; k < fv; ++k) h[n++] = s0.fhe[f][k]; h[n++] = s0.fhe[f][0]; }
     else { h[n++] = s0.fhe[f][0]; }
   } else {
@@ -191,7 +197,8 @@ static int cell_reference(const Snap &s, unsigned base, int *V) {
 //  2 "short":   idx < nHF: the single halfface idx; then all ordered pairs (x, y)            nHF + nHF^2 cases
 //  3 "pillows": idx = (f, f'): both halffaces of f and both of f' (two disconnected closed surfaces if f != f')   nF^2 cases
 static void case_cell(unsigned i) {
-  unsigned base = v_param(0), fam = v_param(1), idx = v_param(2) * CASES_PER_QUERY + i;
+  if (i >= C11_PER) return;
+  unsigned base = v_param(0), fam = v_param(1), idx = v_param(2) * C11_PER + i;
   const unsigned nf = BASE_N[base][2], nhf = 2 * nf;
   const unsigned L = (base == B_TET2_FACE) ? 6 : (base == B_HEX ? 6 : (base == B_PRISM_PYR ? 5 : 4));
   unsigned count = fam == 0 ? L * nhf : fam == 1 ? 3 * L + 1 : fam == 2 ? nhf + nhf * nhf : nf * nf;
@@ -252,10 +259,10 @@ static inline void run_entry(unsigned e, unsigned ncases) {
   dispatch<Case, CASES_PER_QUERY>(sel);
 }
 extern "C" void harness_c11_edge_nobu() { run_entry(E_EDGE_NOBU, 2); }
-extern "C" void harness_c11_edge_bu() { run_entry(E_EDGE_BU, CASES_PER_QUERY); }
+extern "C" void harness_c11_edge_bu() { run_entry(E_EDGE_BU, C11_PER); }
 extern "C" void harness_c11_face_sym() { run_entry(E_FACE_SYM, 1); }
-extern "C" void harness_c11_face_bu() { run_entry(E_FACE_BU, CASES_PER_QUERY); }
-extern "C" void harness_c11_cell() { run_entry(E_CELL, CASES_PER_QUERY); }
+extern "C" void harness_c11_face_bu() { run_entry(E_FACE_BU, C11_PER); }
+extern "C" void harness_c11_cell() { run_entry(E_CELL, C11_PER); }
 extern "C" void harness_c11_cell_sym() { run_entry(E_CELL_SYM, 6); }
 
 // ------------------------------------------------------------------------------------------------- the empty list
